@@ -8,6 +8,6 @@ let find (id : string) : sx -> sx =
   | "C14" -> model_C14
   | "C02" -> model_C02
   | "C01" -> model_C01
-  | "C04" | "C15" | "C12" | "C13" -> model_TOK
+  | "C04" | "C15" | "C12" | "C13" | "C09" -> model_TOK
   | "C05" -> model_C05
   | _ -> failwith ("no extracted model for " ^ id)
